@@ -158,7 +158,9 @@ theorem classifyE_int (v : Bytes) (n : Int) (hne : v ≠ []) (hal : ∀ b ∈ v,
       | true =>
         have hm : (95 : UInt8) ∈ c :: r := by simpa using hx
         exact absurd rfl (alnum_facts 95 (hal 95 hm)).2.2.2.1
-    simp only [classifyE, hbox, Bool.false_eq_true, if_false, parseNum, hund, Bool.and_false, hp]
+    have hu : parseIntU (c :: r) = some n := by
+      unfold parseIntU; rw [hund]; exact hp
+    simp only [classifyE, hbox, Bool.false_eq_true, if_false, parseNum, hu]
 
 /-- A formula that is a single literal token compiles to that literal. -/
 theorem compile_single_lit (s : Bytes) (a : Atom α) (htok : tokenize s = .ok [⟨s, .lit⟩])
